@@ -133,8 +133,8 @@ CompTyped == {S(k, 0, "", <<x, y>>) : k \in {"allOf", "anyOf", "oneOf"}, x \in T
 
 Level1 == Leaves \cup Comp1(Leaves) \cup Comp2(Leaves) \cup CompIf \cup CompTyped
 
-VARIABLES sch, acc
-vars == <<sch, acc>>
+VARIABLES sch, acc, lvl
+vars == <<sch, acc, lvl>>
 
 AccOf(ss) == {i \in 1..NI : ValidAll(ss, i)}
 
@@ -146,6 +146,8 @@ Init ==
                       \cup {<<x>> : x \in Comp2(RandomSubset(Sample \div 4 + 2, Comp1(Leaves) \cup Comp2(Leaves)))}
                  ELSE {})
   /\ acc = AccOf(sch)
+  \* lvl 1: the exhaustive first level (one keyword, combinators over leaves and typed arms); 2: sampled pairs / deeper nesting
+  /\ lvl = IF Len(sch) = 1 /\ sch[1] \in Level1 THEN 1 ELSE 2
 Next == UNCHANGED vars
 
 \* ---- the validator's own sanity theorems ----
